@@ -213,7 +213,18 @@ def _reject(cfg, cx):
         ([((1, 0), 1)], [((1, 1), 1)]),                       # same shape, different parity
         ([((0, 0), 2), ((1, 0), 1)], [((0, 0), 2), ((1, 1), 1)]),
     ]
+    # every ordered pair of distinct non-empty type sets over a small universe (subset, superset, overlapping, disjoint - both directions)
+    import itertools
+    uni = [((0, 0), 1), ((1, 0), 1), ((1, 1), 1)]
+    subsets = [list(c) for r in (1, 2, 3) for c in itertools.combinations(uni, r)]
+    pairs = pairs + [(list(reversed(tb_)), ta_) for ta_, tb_ in pairs] + [(x, y) for x in subsets for y in subsets if x != y]
     for ta, tb in pairs:
+        try:
+            same = bool(mk(ta) == mk(tb))
+        except Exception as e:  # noqa: BLE001
+            same = f"raised {type(e).__name__}"
+        cx.structural(f"eq-different-types[{ta},{tb}]", same is False, f"a == b returned {same} for operands holding different type sets",
+                      key=f"reject:eq:{ta}:{tb}")
         for nm, f in (("add", lambda x, y: x + y), ("sub", lambda x, y: x - y)):
             try:
                 f(mk(ta), mk(tb))
